@@ -101,14 +101,15 @@ Fixpoint put_counted (fuel : nat) (items : list (list bool)) : list bool :=
 Definition counted (items : list (list bool)) : list bool :=
   put_counted (S (length items)) items.
 
-(* size determinant per SIZE constraint (OCTET STRING, SEQUENCE OF, SET OF):
+(* X.691 11.9.4.1-2: the length is a constrained whole number only when the upper bound is below 64K.
+   size determinant per SIZE constraint (OCTET STRING, SEQUENCE OF, SET OF):
    None = the size is not encodable under a non-extensible constraint *)
 Definition sized (s : scon) (items : list (list bool)) : option (list bool) :=
   match s with
   | SCon lo hi ext =>
       let n := zlen items in
       let inroot := in_scon s n in
-      let constrained := match hi with Some h => h - lo <? 65536 | None => false end in
+      let constrained := match hi with Some h => h <? 65536 | None => false end in
       let extbit := if ext then [negb inroot] else [] in
       if negb inroot && negb ext then
         (* the C fails only when the root has a constrained length field *)
@@ -295,7 +296,7 @@ Section Counted.
   Definition get_sized (s : scon) (bs : list bool) : option (list A * list bool) :=
     match s with
     | SCon lo hi ext =>
-        let constrained := match hi with Some h => h - lo <? 65536 | None => false end in
+        let constrained := match hi with Some h => h <? 65536 | None => false end in
         let general (bs : list bool) := get_counted (S (length bs)) bs in
         let root (bs : list bool) :=
           if constrained then
